@@ -177,7 +177,7 @@ func (edb *EventDb) updateAuthorizersTotalMint(mints []state.Mint) error {
 		totalMint []int64
 	)
 	for _, m := range mints {
-		ids = append(ids, m.ToClientID)
+		ids = append(ids, m.Minter)
 		amt, err := m.Amount.Int64()
 		if err != nil {
 			return err
